@@ -1867,6 +1867,19 @@ def gen_plan_threads(seed: int, wide=False) -> dict:
     return plan
 
 
+class _ThreadingProxy:
+    """Stands in for the `threading` module inside pane's namespaces during a thread run: locks made through it are
+    simulated ones, everything else (local, get_ident, Thread ...) is the real thing."""
+
+    def __init__(self, real, make_lock):
+        self._real = real
+        self.RLock = make_lock
+        self.Lock = make_lock
+
+    def __getattr__(self, name):
+        return getattr(self._real, name)
+
+
 def _kc_func(x):
     return ('v', x * x + 1)
 
@@ -1893,7 +1906,6 @@ def execute_threads(plan, want_trace=False) -> dict:
                       opcode_files=('pane/util.py',) if knobs.get('opcode_trace') else ())
     sched.region_probe = lambda fr: fr.f_code.co_name == '__call__' and fr.f_code.co_filename.endswith('pane/util.py')
     util = sys.modules['pane.util']
-    saved_locks = {n: util.__dict__.get(n) for n in ('RLock', 'Lock')}
 
     def make_kc(f, key_f, maxsize):
         KeyCache = getattr(util, 'KeyCache', None)
@@ -1932,16 +1944,47 @@ def execute_threads(plan, want_trace=False) -> dict:
     import _thread
     import threading as _threading
     _real_lock_types = (_thread.LockType, type(_threading.RLock()))
-    for _m in s.mods.values():
-        for _name, _val in list(vars(_m).items()):
+    _seen = set()
+
+    def _swap_in(obj, depth):
+        """Replace real locks reachable from a pane module / class / pane-defined object (attributes, and one level
+        of plain containers) by simulated ones; remembered in `swapped` and put back afterwards."""
+        if id(obj) in _seen or depth > 3:
+            return
+        _seen.add(id(obj))
+        try:
+            items = list(vars(obj).items())
+        except TypeError:
+            items = []
+        for _name, _val in items:
             if isinstance(_val, _real_lock_types):
-                swapped.append((_m, _name, _val))
-                setattr(_m, _name, sched.make_lock())
-            elif isinstance(_val, type) and getattr(_val, '__module__', '') == _m.__name__:
-                for _an, _av in list(vars(_val).items()):
-                    if isinstance(_av, _real_lock_types):
-                        swapped.append((_val, _an, _av))
-                        setattr(_val, _an, sched.make_lock())
+                try:
+                    setattr(obj, _name, sched.make_lock())
+                    swapped.append((obj, _name, _val))
+                except (AttributeError, TypeError):
+                    pass
+            elif isinstance(_val, type):
+                if str(getattr(_val, '__module__', '')).split('.')[0] == 'pane':
+                    _swap_in(_val, depth + 1)
+            elif str(getattr(type(_val), '__module__', '')).split('.')[0] == 'pane' and hasattr(_val, '__dict__'):
+                _swap_in(_val, depth + 1)
+            elif isinstance(_val, (list, tuple)) and len(_val) <= 64:
+                for _x in _val:
+                    if str(getattr(type(_x), '__module__', '')).split('.')[0] == 'pane' and hasattr(_x, '__dict__'):
+                        _swap_in(_x, depth + 1)
+    shadowed = []
+    for _m in s.mods.values():
+        _swap_in(_m, 0)
+        # locks that pane creates *during* the run (per converter, per table) must be simulated ones too: the lock
+        # constructors visible in pane's module namespaces are shadowed for the duration of the run
+        for _name, _val in list(vars(_m).items()):
+            if _val is _threading.RLock or _val is _threading.Lock or _val is _thread.allocate_lock:
+                shadowed.append((_m, _name, _val))
+                setattr(_m, _name, sched.make_lock)
+            elif _val is _threading:
+                shadowed.append((_m, _name, _val))
+                setattr(_m, _name, _ThreadingProxy(_threading, sched.make_lock))
+    saved_locks = {n: util.__dict__.get(n) for n in ('RLock', 'Lock')}     # (already the simulated constructors)
     world = tg.World()
     alloc = SimAlloc(st.rng('alloc'), knobs['p_recycle'], counters=counters)
     results = []      # per thread: list of fingerprints
@@ -2126,8 +2169,11 @@ def execute_threads(plan, want_trace=False) -> dict:
     finally:
         if pristine_srv is not None:
             pristine_srv.close()
-        for (obj, name, val) in swapped:
-            setattr(obj, name, val)
+        for (obj, name, val) in swapped + shadowed:
+            try:
+                setattr(obj, name, val)
+            except (AttributeError, TypeError):
+                pass
         alloc.active = False
         s.restore()
         world.clear()
